@@ -204,7 +204,10 @@ def build_listener(node, ls, stations):
     if t == "apside":
         return L.ApsideListener(frame=ls.get("frame"))
     if t == "anomaly":
-        return L.AnomalyListener(ls["value"], anomaly=ls.get("anomaly", "true"), frame=ls.get("frame"))
+        lis = L.AnomalyListener(ls["value"], anomaly=ls.get("anomaly", "true"), frame=ls.get("frame"))
+        if ls.get("assign_turns"):
+            lis.value = ls["value"] + 2 * np.pi * ls["assign_turns"]  # re-targeted after construction (the same angle, whole turns away)
+        return lis
     if t == "light":
         if ls.get("frame"):
             return L.LightListener(ls.get("ltype", "umbra"), frame=ls["frame"])
